@@ -14,6 +14,9 @@ def ofOption {α : Type} : Option α → M α
 @[simp] theorem ofOption_some {α : Type} (a : α) : ofOption (some a) = .ok a := rfl
 @[simp] theorem ofOption_none {α : Type} : (ofOption (none : Option α)) = .error .panic := rfl
 
+theorem ok_bind {α β : Type} (a : α) (f : α → M β) : ((Except.ok a : M α) >>= f) = f a := rfl
+theorem error_bind {α β : Type} (e : Fail) (f : α → M β) : ((Except.error e : M α) >>= f) = Except.error e := rfl
+
 @[simp] theorem safeMath_ok {α : Type} (a : α) (h : M α) : safeMath (.ok a) h = .ok a := rfl
 @[simp] theorem safeMath_overflow {α : Type} (h : M α) : safeMath (.error .overflow) h = h := rfl
 @[simp] theorem safeMath_panic {α : Type} (h : M α) : safeMath (.error .panic) h = .error .panic := rfl
